@@ -56,6 +56,7 @@ type Entry struct {
 }
 
 type Harness struct {
+	PreCmd      []string          `json:"pre_cmd"` // run in /verif before loading (generates harness inputs from the current tree)
 	Property    string            `json:"property"`
 	Files       map[string]string `json:"files"` // harness file -> path relative to repo
 	Entries     []Entry           `json:"entries"`
@@ -199,6 +200,20 @@ func readHarness(prop string) (*Harness, string, error) {
 		return nil, "", fmt.Errorf("harness.json: %v", err)
 	}
 	return &h, hdir, nil
+}
+
+// runPre runs the harness's generator commands (inputs derived from the
+// current tree, e.g. the repository's own testdata as Go literals).
+func runPre(h *Harness) error {
+	for _, c := range h.PreCmd {
+		cmd := exec.Command("/bin/sh", "-c", c)
+		cmd.Dir = verifDir
+		cmd.Env = append(goEnv(), "VERIF_DIR="+verifDir, "VERIF_REPO="+repoDir)
+		if out, err := cmd.CombinedOutput(); err != nil {
+			return fmt.Errorf("pre_cmd %q failed: %v\n%s", c, err, out)
+		}
+	}
+	return nil
 }
 
 // ---------------------------------------------------------------- worker process handle
@@ -701,6 +716,10 @@ func runMain(args []string) int {
 		fmt.Println("ERROR:", err)
 		return 2
 	}
+	if err := runPre(h); err != nil {
+		fmt.Println("ERROR:", err)
+		return 2
+	}
 	known := loadKnown()
 
 	// how many workers do we need?
@@ -1159,6 +1178,10 @@ func replayMain(args []string) int {
 	}
 	h, hdir, err := readHarness(*prop)
 	if err != nil {
+		fmt.Println("ERROR:", err)
+		return 2
+	}
+	if err := runPre(h); err != nil {
 		fmt.Println("ERROR:", err)
 		return 2
 	}
